@@ -1,1 +1,4 @@
 import Proofs.C01
+import Proofs.C05
+import Proofs.C08
+import Proofs.C09
